@@ -407,6 +407,88 @@ UMASK_EXCEPTIONS = {('OSToken::OSToken', 'Generation::create'): (generation_neve
                     'Generation::create(path, true) binds `true` to the umask parameter, but with isToken==false this Generation never creates its file (validated: no File(..., create=true) is reachable in Generation with isToken==0)')}
 
 
+# --------------------------------------------------------------------------------------- R6: the read side of the privacy diamond
+def r6_read_diamond(ctx, prog, rule_id='C06.R6'):
+    """Every read of a secret value attribute that feeds key material goes through Token::decrypt exactly when the object it is read from is private:
+    at a decrypting read the object's CKA_PRIVATE is known true on the path, at a plain read it is known false — and it is that object's flag, not another condition."""
+    from rules import c02
+    r = ctx.rule(rule_id, 'a stored secret value is decrypted exactly when the object it is read from is private (the flag of that object decides, nothing else)', floor=25, engine='E2')
+    secret_vals = {macro(prog, n): n for n in c02.SECRET}
+    for f in sorted(prog.functions.values(), key=lambda f: (f['file'], f['line'])):
+        if not f['file'].endswith('/SoftHSM.cpp') and not f['file'].endswith('SoftHSM.cpp'):
+            continue
+        srcs = [c for c in calls(f['body']) if c02._secret_source(c, secret_vals) and c.get('recv') is not None and c['recv'].get('k') == 'Var']
+        if not srcs or unanalysable(f):
+            continue
+        ctx.analysed(f)
+        # which reads are the first argument of a decrypt call
+        dec_args = {id(a) for c in calls(f['body'], short='decrypt') for a in c.get('args', [])[:1] for x in walk(a) if True for a in [a]}
+        decrypting = set()
+        for c in calls(f['body'], short='decrypt'):
+            if c.get('args'):
+                for x in walk(c['args'][0]):
+                    decrypting.add(id(x))
+        ids = {id(c): c for c in srcs}
+
+        def trig(e, st):
+            return ('read', e['l'], id(e)) if id(e) in ids else None
+        sf = SiteFacts(f, prog, trigger=trig).go()
+        r.paths += sf.paths_returned
+        for (_, line, cid), hits in sorted(sf.sites.items()):
+            c = ids[cid]
+            obj = canon(c['recv'])
+            name = secret_vals[tables.const_eval(c['args'][0])]
+            isdec = cid in decrypting
+            site = '%s read of %s.%s@%d' % ('decrypting' if isdec else 'plain', obj, name, sorted(ids).index(cid))
+            rx = re.compile(r'getBooleanValue(@\d+)?\(%s,CKA_PRIVATE,\w+\)' % re.escape(obj))
+            bad = None
+            for h in hits:
+                truths = {t for a, t in h['facts'] if rx.fullmatch(a)}
+                # the flag may also be a parameter (isPrivate handed in by the caller): then the fact is on that parameter
+                if not truths:
+                    truths = {t for a, t in h['facts'] if re.fullmatch(r'is\w*Private', a)}
+                if isdec and True not in truths:
+                    bad = (h, 'decrypted on a path where the object is not known to be private')
+                elif not isdec and False not in truths:
+                    bad = (h, 'used as stored (no decryption) on a path where the object is not known to be public — a private object\'s value is an encrypted blob there')
+            if bad:
+                r.violation(f['qname'], site, '%s of %s is %s: the operation works on ciphertext (or garbage) instead of the key value' % (name, obj, bad[1]), file=f['file'], line=line, path=bad[0]['path'])
+            else:
+                r.ok(f['qname'], site, '%d abstract states' % len(hits), file=f['file'], line=line)
+
+
+def r2b_flag_arguments(ctx, prog):
+    """Helpers that store key material take the privacy flag of the object they fill as a parameter: at every call site the argument must be the flag that the same
+    function checked with haveWrite / handed to CreateObject for the new object (not the flag of another object, e.g. the unwrapping key)."""
+    r = ctx.rule('C06.R2b', 'store helpers receive the privacy flag of the object they fill', floor=5, engine='E7 sibling agreement + E2')
+    helpers = {f['qname']: [i for i, pp in enumerate(f['params']) if pp.get('var') and re.fullmatch(r'is\w*Private', pp['var']['name'])] for f in prog.functions.values()
+               if f.get('class') == 'SoftHSM' and re.fullmatch(r'SoftHSM::set\w+(PrivateKey|PublicKey|Key)', f['qname'])}
+    helpers = {q: ix for q, ix in helpers.items() if ix}
+    for g in sorted(prog.functions.values(), key=lambda g: (g['file'], g['line'])):
+        cs = [c for c in calls(g['body']) if c.get('callee') in helpers]
+        if not cs:
+            continue
+        ctx.analysed(g)
+        # the flag of the new object in this function: the privacy argument of haveWrite / CreateObject-style calls
+        own = set()
+        for c in calls(g['body']):
+            if short(c.get('callee')) == 'haveWrite' and len(c.get('args', [])) >= 3:
+                own |= {x['name'] for x in walk(c['args'][2]) if x.get('k') == 'Var'}
+        for c in cs:
+            i = helpers[c['callee']][0]
+            a = c['args'][i] if i < len(c.get('args', [])) else None
+            names = {x['name'] for x in walk(a) if x.get('k') == 'Var'} if a is not None else set()
+            site = '%s flag argument@%d' % (short(c['callee']), cs.index(c))
+            sib = [canon(x['args'][helpers[x['callee']][0]]) for x in cs if x is not c and helpers[x['callee']][0] < len(x.get('args', []))]
+            if own and not (names & own):
+                r.violation(g['qname'], site, 'the helper is given %s, but the privacy of the object being filled is %s (the flag this function checked with haveWrite): key material of a private object is stored in clear when the two differ'
+                            % (canon(a), '/'.join(sorted(own))), file=g['file'], line=c['l'])
+            elif sib and canon(a) not in sib and len(set(sib)) == 1:
+                r.violation(g['qname'], site, 'the helper is given %s while its %d sibling calls in this function pass %s' % (canon(a), len(sib), sib[0]), file=g['file'], line=c['l'])
+            else:
+                r.ok(g['qname'], site, canon(a), file=g['file'], line=c['l'])
+
+
 def run(ctx):
     prog = ctx.prog('ossl-file')
     r1_diamond(ctx, prog)
@@ -414,9 +496,15 @@ def run(ctx):
     r3_masterkey(ctx, prog)
     r4_iv(ctx, prog)
     r5_umask(ctx, prog)
+    r6_read_diamond(ctx, prog)
+    r2b_flag_arguments(ctx, prog)
 
 
 MUTANTS = [
+    dict(name='unwrap-ec-key-stored-with-unwrapping-keys-flag', rule='C06.R2b', file='src/lib/SoftHSM.cpp', after='CK_RV SoftHSM::C_UnwrapKey',
+         old='setECPrivateKey(osobject, keydata, token, isPrivate != CK_FALSE);', new='setECPrivateKey(osobject, keydata, token, isUnwrapKeyPrivate != CK_FALSE);'),
+    dict(name='digestkey-session-private-not-decrypted', rule='C06.R6', file='src/lib/SoftHSM.cpp', after='CK_RV SoftHSM::C_DigestKey',
+         old='\tif (isPrivate)\n', new='\tif (isOnToken && isPrivate)\n'),
     dict(name='generateaes-stores-plain-key', rule='C06.R1', function='generateAES', file='src/lib/SoftHSM.cpp', after='CK_RV SoftHSM::generateAES',
          old='\t\t\t\ttoken->encrypt(key->getKeyBits(), value);\n', new='\t\t\t\tvalue = key->getKeyBits();\n'),
     dict(name='attrvalue-stores-plaintext', rule='C06.R1', function='P11AttrValue', file='src/lib/P11Attributes.cpp', after='CK_RV P11AttrValue::updateAttr(',
